@@ -7,6 +7,7 @@ package server
 import (
 	"bytes"
 	"encoding/json"
+	"errors"
 	"fmt"
 	"net/url"
 	"strings"
@@ -130,7 +131,82 @@ func c16Guarded(ctx *vkit.Ctx, tok *c16Token, q *c16Req) bool {
 			}
 		}
 	}
+	// D-C16-8: requestNamespaces (middleware.go) takes the body's index fields only when its own
+	// Decode of {index_name, source_index, target_index, pipeline_name} returns no error; a
+	// wrongly typed one of these makes it drop them all, while a handler that does not know that
+	// field (decodeJSONLenient) accepts the body. Trigger = restricted token, POST, the
+	// middleware's decode fails with a type error, and a field that did decode names an index
+	// outside the token.
+	if ctx.IsKnown("D-C16-8") && !tok.global() && q.Method == "POST" && len(q.Body) > 0 {
+		pl, err := c16MiddlewareDecode(q.Body)
+		var te *json.UnmarshalTypeError
+		if err != nil && errors.As(err, &te) {
+			bad := false
+			for _, n := range []string{pl.IndexName, pl.SourceIndex, pl.TargetIndex} {
+				if n != "" && !tok.allows(n) {
+					bad = true
+				}
+			}
+			for i, name := range []string{"pipeA", "pipeB"} {
+				if pl.PipelineName == name && !tok.allows(q.fixIdx[i]) {
+					bad = true
+				}
+			}
+			if bad {
+				ctx.Count("guarded.D-C16-8", 1)
+				return true
+			}
+		}
+	}
+	// D-C16-9: the compiler handlers fall back to a default index ("mcp_memory") when THEIR
+	// selector (?index for the GET routes, body.index_name for POST /compile) is empty, while the
+	// middleware is satisfied by an index named anywhere else in the URL. Trigger = restricted
+	// token that does not cover the default index, that index exists, a route of a source file
+	// with such a default, the handler's selector empty, and the URL names some index.
+	if ctx.IsKnown("D-C16-9") && !tok.global() && len(c16DefaultIdx[q.Route.File]) > 0 {
+		exposed := false
+		for _, d := range c16DefaultIdx[q.Route.File] {
+			for _, n := range q.fixIdx {
+				if n == d && !tok.allows(d) {
+					exposed = true
+				}
+			}
+		}
+		if u, err := url.ParseRequestURI(q.Target); err == nil && exposed {
+			qv := u.Query()
+			named := false
+			for _, k := range []string{"index", "index_name"} {
+				for _, v := range qv[k] {
+					named = named || v != ""
+				}
+			}
+			selector := qv.Get("index")
+			if q.Method == "POST" {
+				pl, _ := c16MiddlewareDecode(q.Body)
+				selector = pl.IndexName
+			}
+			if named && selector == "" {
+				ctx.Count("guarded.D-C16-9", 1)
+				return true
+			}
+		}
+	}
 	return false
+}
+
+type c16IdxPayload struct {
+	IndexName    string `json:"index_name"`
+	SourceIndex  string `json:"source_index"`
+	TargetIndex  string `json:"target_index"`
+	PipelineName string `json:"pipeline_name"`
+}
+
+// c16MiddlewareDecode decodes the first JSON document of a body into the four index fields
+// the way encoding/json does for any struct: on a type error the other fields are still filled.
+func c16MiddlewareDecode(b []byte) (c16IdxPayload, error) {
+	var pl c16IdxPayload
+	err := json.NewDecoder(bytes.NewReader(b)).Decode(&pl)
+	return pl, err
 }
 
 func firstJSONDoc(b []byte) []byte {
@@ -144,6 +220,8 @@ func firstJSONDoc(b []byte) []byte {
 
 func c16Probes(ctx *vkit.Ctx, routes []c16Route, words []string) {
 	names := [3]string{"mysearch", "beta", "gamma"}
+	c16Artifacts = true
+	defer func() { c16Artifacts = false }()
 
 	// D-C16-1 — DESIGN D16 (first half)
 	ctx.Probe("D-C16-1", func(cs *vkit.Case) string {
@@ -327,6 +405,77 @@ func c16Probes(ctx *vkit.Ctx, routes []c16Route, words []string) {
 		rs = f.do("POST", "/graph/actions/link", tW.Token, []byte(`{"index_name":"t","source_id":"u::n2","target_id":"zz","relation_type":"parent"}`))
 		if d := c16DiffMaps(before, c16PartOf("t::u", f.observe())); len(d) > 0 {
 			fails = append(fails, fmt.Sprintf("POST /graph/actions/link {\"index_name\":\"t\",\"source_id\":\"u::n2\",...} with a WRITE token restricted to [t] answered %d and changed the graph of index \"t::u\": %s", rs.Code, c16Trunc(d[0])))
+		}
+		return strings.Join(fails, " || ")
+	})
+	hasCanary := func(b []byte, ix *c16Index) string {
+		for _, c := range ix.Canaries {
+			if c != "" && bytes.Contains(b, []byte(c)) {
+				return c
+			}
+		}
+		return ""
+	}
+
+	// D-C16-8 — new: a wrongly typed sibling field makes the middleware ignore the body's indexes
+	ctx.Probe("D-C16-8", func(cs *vkit.Case) string {
+		f := newC16Fix(ctx, cs, [3]string{"alpha", "beta", "gamma"})
+		defer f.close()
+		var fails []string
+		tR := f.mint("read", []string{"alpha"})
+		tW := f.mint("write", []string{"alpha"})
+		// control: the same requests without the sibling field are refused
+		cs.Op("read[alpha]: POST /graph/actions/get-links?index_name=alpha {index_name:beta} (control)")
+		rs := f.do("POST", "/graph/actions/get-links?index_name=alpha", tR.Token, []byte(`{"index_name":"beta","source_id":"n0","relation_type":"next"}`))
+		if c := hasCanary(rs.Body, f.idx[1]); c != "" {
+			fails = append(fails, fmt.Sprintf("POST /graph/actions/get-links?index_name=alpha {\"index_name\":\"beta\",...} with a READ token restricted to [alpha] answered %d with data of beta (%s)", rs.Code, c))
+		}
+		cs.Op("read[alpha]: POST /graph/actions/get-links?index_name=alpha {index_name:beta, pipeline_name:7}")
+		rs = f.do("POST", "/graph/actions/get-links?index_name=alpha", tR.Token, []byte(`{"index_name":"beta","source_id":"n0","relation_type":"next","pipeline_name":7}`))
+		if c := hasCanary(rs.Body, f.idx[1]); c != "" {
+			fails = append(fails, fmt.Sprintf("POST /graph/actions/get-links?index_name=alpha {\"index_name\":\"beta\",\"source_id\":\"n0\",\"relation_type\":\"next\",\"pipeline_name\":7} with a READ token restricted to [alpha] answered %d with data of index beta (%s); expected 403 as without \"pipeline_name\":7 (middleware.go:275 uses the body's index fields only if Decode returned no error - the type error on pipeline_name discards index_name too; handleGraphGetLinks decodes leniently and ignores the unknown field)", rs.Code, c))
+		}
+		before := c16PartOf("beta", f.observe())
+		cs.Op("write[alpha]: POST /graph/actions/link?index=alpha {index_name:beta, target_index:[]}")
+		rs = f.do("POST", "/graph/actions/link?index=alpha", tW.Token, []byte(`{"index_name":"beta","source_id":"n3","target_id":"n0","relation_type":"parent","target_index":[]}`))
+		f.settle()
+		if d := c16DiffMaps(before, c16PartOf("beta", f.observe())); len(d) > 0 {
+			fails = append(fails, fmt.Sprintf("POST /graph/actions/link?index=alpha {\"index_name\":\"beta\",\"source_id\":\"n3\",\"target_id\":\"n0\",\"relation_type\":\"parent\",\"target_index\":[]} with a WRITE token restricted to [alpha] answered %d and modified index beta: %s", rs.Code, c16Trunc(d[len(d)-1])))
+		}
+		return strings.Join(fails, " || ")
+	})
+
+	// D-C16-9 — new: handler default index behind a namespace check satisfied elsewhere
+	ctx.Probe("D-C16-9", func(cs *vkit.Case) string {
+		f := newC16Fix(ctx, cs, [3]string{"alpha", "mcp_memory", "gamma"})
+		defer f.close()
+		if f.namesRejected {
+			return "" // an index called "mcp_memory" cannot exist: the scenario has no subject
+		}
+		var fails []string
+		tR := f.mint("read", []string{"alpha"})
+		tW := f.mint("write", []string{"alpha"})
+		cs.Op("read[alpha]: GET /artifacts?index=mcp_memory (control)")
+		rs := f.do("GET", "/artifacts?index=mcp_memory", tR.Token, nil)
+		if c := hasCanary(rs.Body, f.idx[1]); c != "" {
+			fails = append(fails, fmt.Sprintf("GET /artifacts?index=mcp_memory with a READ token restricted to [alpha] answered %d with data of mcp_memory (%s)", rs.Code, c))
+		}
+		cs.Op("read[alpha]: GET /artifacts?index_name=alpha")
+		rs = f.do("GET", "/artifacts?index_name=alpha", tR.Token, nil)
+		if c := hasCanary(rs.Body, f.idx[1]); c != "" {
+			fails = append(fails, fmt.Sprintf("GET /artifacts?index_name=alpha with a READ token restricted to [alpha] answered %d with the artifacts of index mcp_memory (%s); expected: refused or alpha's artifacts (middleware.go:252 accepts ?index_name=alpha as the namespace; compiler_handlers.go:96-98 reads only ?index and falls back to \"mcp_memory\")", rs.Code, c))
+		}
+		cs.Op("read[alpha]: GET /artifact/art1?index=&index=alpha&entity_type=doc&entity_id=n0")
+		rs = f.do("GET", "/artifact/art1?index=&index=alpha&entity_type=doc&entity_id=n0", tR.Token, nil)
+		if c := hasCanary(rs.Body, f.idx[1]); c != "" {
+			fails = append(fails, fmt.Sprintf("GET /artifact/art1?index=&index=alpha&entity_type=doc&entity_id=n0 with a READ token restricted to [alpha] answered %d with an artifact of index mcp_memory (%s) (the middleware checks every ?index value, the handler's Query().Get sees the empty first one: compiler_handlers.go:118-122)", rs.Code, c))
+		}
+		before := c16PartOf("mcp_memory", f.observe())
+		cs.Op("write[alpha]: POST /compile?index=alpha {name:art2,...} without index_name")
+		rs = f.do("POST", "/compile?index=alpha", tW.Token, []byte(`{"name":"art2","template":"entity_card","sources":{"type":"all","entity":{"type":"doc","id":"n0"}}}`))
+		f.settle()
+		if d := c16DiffMaps(before, c16PartOf("mcp_memory", f.observe())); len(d) > 0 {
+			fails = append(fails, fmt.Sprintf("POST /compile?index=alpha {\"name\":\"art2\",\"template\":\"entity_card\",\"sources\":{...}} (no index_name) with a WRITE token restricted to [alpha] answered %d and wrote an artifact into index mcp_memory (compiler_handlers.go:40-42): %s", rs.Code, c16Trunc(d[len(d)-1])))
 		}
 		return strings.Join(fails, " || ")
 	})
